@@ -561,9 +561,10 @@ def _innermost_repo_frame(e):
 def _resolves(data, ptext, value, log):
     from yamlpath import Processor
     try:
-        res = [gen.plain(nc.node) for nc in Processor(log, data).get_nodes(ptext, mustexist=True)]
+        got = list(Processor(log, data).get_nodes(ptext, mustexist=True))
     except Exception as e:
         return "%s: %s" % (type(e).__name__, str(e)[:80])
+    res = [gen.plain(nc.node) for nc in got]
     if len(res) == 1 and type(res[0]) is type(value) and res[0] == value:
         return True
     return "resolves to %r" % (res,)
